@@ -231,6 +231,9 @@ func (w *reqWorld) classify(msg string) string {
 					continue
 				}
 				switch {
+				case strings.HasPrefix(l, "stat "+w.dir+"/blocker/"):
+					// the unusable template some histories put in front of the path (see execRequire): it can never
+					// hold a module, whatever the reason the file system gives; the Model's path does not list it
 				case strings.HasPrefix(l, "no field package.preload['") && strings.HasSuffix(l, "']"):
 					tried = append(tried, "P:"+l[len("no field package.preload['"):len(l)-2])
 				case strings.HasPrefix(l, "stat "+w.dir+"/") && strings.HasSuffix(l, ": no such file or directory"):
@@ -430,6 +433,14 @@ func execRequire(ops []Op) []string {
 		if err := os.WriteFile(p, []byte(src), 0o644); err != nil {
 			panic(err)
 		}
+	}
+	if n := len(ops); n > 0 && (n+len(ops[n-1].Args)+len(ops[0].Args))%2 == 1 {
+		// half of the histories search through a template that cannot be examined (its directory part is a regular
+		// file: ENOTDIR, not ENOENT) placed BEFORE the real ones: the search must simply go on to the next template
+		if err := os.WriteFile(filepath.Join(w.dir, "blocker"), []byte("not a directory"), 0o644); err != nil {
+			panic(err)
+		}
+		L.SetField(L.GetGlobal("package"), "path", lua.LString(w.dir+"/blocker/?.lua;"+w.dir+"/?.lua;"+w.dir+"/alt/?.lua"))
 	}
 	emit([]string{"path", "?.lua;alt/?.lua"}, "")
 	// the standard libraries are modules like any other: after OpenLibs each is registered under its name (the globals
